@@ -42,7 +42,7 @@ def clock_events(ctx):
         for post in (True, False):
             val = Valuation(facts={'self.pre_market': pre, 'self.post_market': post})
             sx = SymEx(ctx.M, policy=default_policy, oracle=val)
-            ps = sx.run(fn)
+            ps = sx.run_entry(fn)
             ctx.paths_explored += len(ps)
             seqs = []
             for p in ps:
